@@ -662,14 +662,69 @@ impl Sched {
             self.fatal_locked(&mut st, "deadlock", d);
         }
         let me_is_cand = cands.contains(&me);
-        let default = if me_is_cand { me } else { cands[0] };
+        // ---- the default policy (deterministic, no PRNG): keep running the current thread, else
+        // the lowest tid -- corrected by the fairness rules a real OS scheduler provides, which
+        // mmtk-core's busy-wait loops rely on.  Explicit replays record deviations from it.
+        let mut default = if me_is_cand { me } else { cands[0] };
+        let mut forced = false;
+        let oldest_other = |st: &State, bound: Option<u64>| -> Option<usize> {
+            let mut oldest: Option<(u64, usize)> = None;
+            for c in cands.iter() {
+                if *c == me {
+                    continue;
+                }
+                let since = st.threads[*c].cand_since.unwrap_or(step);
+                if let Some(b) = bound {
+                    if step.saturating_sub(since) <= b {
+                        continue;
+                    }
+                }
+                if oldest.map(|(s0, _)| since < s0).unwrap_or(true) {
+                    oldest = Some((since, *c));
+                }
+            }
+            oldest.map(|x| x.1)
+        };
+        if cands.len() > 1 {
+            // (1) a spinning thread yields to the longest-waiting other candidate
+            if site::class_of(site_id) == site::CLASS_SPIN {
+                if let Some(c) = oldest_other(&st, None) {
+                    default = c;
+                    forced = true;
+                }
+            }
+            // (2) a thread may run at most `max_run` consecutive scheduling points while others wait
+            if me_is_cand && default == me {
+                st.run_len += 1;
+                if st.run_len >= st.cfg.max_run {
+                    if let Some(c) = oldest_other(&st, None) {
+                        default = c;
+                        forced = true;
+                        st.stats.forced_preemptions += 1;
+                    }
+                }
+            }
+            // (3) a thread that has been runnable for 4 * max_run steps runs now
+            if let Some(c) = oldest_other(&st, Some(st.cfg.max_run.saturating_mul(4))) {
+                if default != c {
+                    default = c;
+                    forced = true;
+                    st.stats.forced_preemptions += 1;
+                }
+            }
+        }
+        if forced && matches!(st.cfg.strategy, Strategy::Pct { .. }) && default != me {
+            // keep the beneficiary ahead of the current thread for a while
+            let p = st.threads[me].priority.max(st.threads[default].priority);
+            st.threads[default].priority = p.saturating_add(1);
+        }
         let fair = step >= st.cfg.fair_after_step && st.cfg.explicit.is_none();
         let strategy = if fair {
             Strategy::Random { num: 1, den: 4 }
         } else {
             st.cfg.strategy.clone()
         };
-        let drawn = if cands.len() == 1 || st.cfg.explicit.is_some() {
+        let drawn = if cands.len() == 1 || st.cfg.explicit.is_some() || forced {
             default
         } else {
             match strategy {
@@ -712,68 +767,6 @@ impl Sched {
                 }
             }
         };
-        // Starvation bound (see `SchedConfig::max_run`).
-        let mut drawn = drawn;
-        if me_is_cand && cands.len() > 1 && drawn == me && st.cfg.explicit.is_none() {
-            st.run_len += 1;
-            if st.run_len >= st.cfg.max_run {
-                let others: Vec<usize> = cands.iter().cloned().filter(|c| *c != me).collect();
-                drawn = others[st.rng.usize_below(others.len())];
-                if matches!(st.cfg.strategy, Strategy::Pct { .. }) {
-                    st.pct_low -= 1;
-                    let low = st.pct_low;
-                    st.threads[me].priority = low;
-                }
-                st.stats.forced_preemptions += 1;
-            }
-        }
-        // A spinning thread yields to the longest-waiting other candidate (so that busy-wait
-        // episodes round-robin over all runnable threads instead of ping-ponging between two).
-        if site::class_of(site_id) == site::CLASS_SPIN && st.cfg.explicit.is_none() {
-            let mut oldest: Option<(u64, usize)> = None;
-            for c in cands.iter() {
-                if *c == me {
-                    continue;
-                }
-                let since = st.threads[*c].cand_since.unwrap_or(step);
-                if oldest.map(|(s0, _)| since < s0).unwrap_or(true) {
-                    oldest = Some((since, *c));
-                }
-            }
-            if let Some((_, c)) = oldest {
-                drawn = c;
-            }
-        }
-        // Global starvation bound: a thread that has been runnable for `4 * max_run` steps without
-        // running is scheduled now (busy-wait cycles among other threads would starve it forever
-        // under priority scheduling; a real OS scheduler is fair).
-        if cands.len() > 1 && st.cfg.explicit.is_none() {
-            let bound = st.cfg.max_run.saturating_mul(4);
-            let mut oldest: Option<(u64, usize)> = None;
-            for c in cands.iter() {
-                if *c == me {
-                    continue;
-                }
-                if let Some(since) = st.threads[*c].cand_since {
-                    if step.saturating_sub(since) > bound
-                        && oldest.map(|(s0, _)| since < s0).unwrap_or(true)
-                    {
-                        oldest = Some((since, *c));
-                    }
-                }
-            }
-            if let Some((_, c)) = oldest {
-                if drawn != c {
-                    drawn = c;
-                    st.stats.forced_preemptions += 1;
-                    if matches!(st.cfg.strategy, Strategy::Pct { .. }) {
-                        // swap priorities so the starved thread stays ahead for a while
-                        let p = st.threads[me].priority.max(st.threads[c].priority);
-                        st.threads[c].priority = p.saturating_add(1);
-                    }
-                }
-            }
-        }
         let next = self.decide(&mut st, &cands, default, drawn);
         if next != me {
             st.run_len = 0;
